@@ -125,7 +125,10 @@ func (c *NoiseConn) Read(b []byte) (n int, err error) {
 	// maintain an intermediate read buffer. If this buffer becomes
 	// depleted, then we read the next record, and feed it into the
 	// buffer. Otherwise, we read directly from the buffer.
-	if c.readBuf.Len() == 0 {
+	// An empty record carries no bytes for the stream, so we keep reading
+	// until we have something to hand out; bytes.Buffer.Read would report
+	// io.EOF on an empty buffer.
+	for c.readBuf.Len() == 0 {
 		plaintext, err := c.noise.ReadMessage(c.conn)
 		if err != nil {
 			return 0, err
